@@ -74,6 +74,11 @@ def fixed_battery() -> List[Tuple[str, Any]]:
         ("DefinitionResponse", {"jsonrpc": "2.0", "id": 5, "result": [{"targetUri": "u", "targetRange": rng, "targetSelectionRange": rng}]}),
         ("TextDocumentEdit", {"textDocument": {"uri": "u", "version": 1}, "edits": [{"range": rng, "snippet": {"kind": "snippet", "value": "v"}, "annotationId": "a"}]}),
         ("TextDocumentRegistrationOptions", {"documentSelector": [{"notebook": "nb", "language": "py"}, {"scheme": "file"}, {"pattern": "*"}]}),
+        # undeclared keys (ignored by every non-customised converter)
+        ("Hover", {"contents": "x", "range": dict(rng, extra=1), "futureField": {"a": 1}}),
+        ("CompletionItem", {"label": "l", "x-vendor": True, "textEdit": {"range": rng, "newText": "n", "more": None}}),
+        ("InitializeRequest", {"jsonrpc": "2.0", "id": 1, "method": "initialize", "trace-id": "t",
+                               "params": {"processId": None, "rootUri": None, "capabilities": {"vendor": {}}, "zz": 0}}),
         # rejected inputs
         ("Position", {"line": -1, "character": 0}),
         ("Position", {"line": 1}),
@@ -335,7 +340,8 @@ def _work_sched(args) -> dict:
 
 
 # ---- (B) creation histories ---------------------------------------------------------------------------
-CONFIGS = ["fresh", "Converter(dv=True)", "Converter(dv=False)", "GenConverter()", "Converter()", "custom-int-hook"]
+CONFIGS = ["fresh", "Converter(dv=True)", "Converter(dv=False)", "GenConverter()", "Converter()", "custom-int-hook", "custom-forbid-extra"]
+CUSTOMISED = ("custom-int-hook", "custom-forbid-extra")
 
 
 def child_history(ops: List[Any], fixed: List[Tuple[str, Any]], reference: List[Any]) -> dict:
@@ -359,6 +365,8 @@ def child_history(ops: List[Any], fixed: List[Tuple[str, Any]], reference: List[
             return c.get_converter(cattrs.GenConverter())
         if kind == "Converter()":
             return c.get_converter(cattrs.Converter())
+        if kind == "custom-forbid-extra":
+            return c.get_converter(cattrs.Converter(forbid_extra_keys=True))   # a user's stricter configuration
         if kind == "custom-int-hook":
             base = cattrs.Converter()
             base.register_structure_hook(int, lambda v, _: int(v) + 1000)   # a user's own customisation
@@ -388,7 +396,7 @@ def child_history(ops: List[Any], fixed: List[Tuple[str, Any]], reference: List[
         for idx, (label, conv) in enumerate(convs):
             outs = [outcome(conv, t, name, j) for name, j in battery]
             evaluations += len(outs)
-            if label != "custom-int-hook":
+            if label not in CUSTOMISED:
                 ref = reference[: len(outs)]
                 if outs != ref:
                     k = next(i for i, (a, b) in enumerate(zip(outs, ref)) if a != b)
